@@ -38,7 +38,7 @@ type c09Case struct {
 	// ("ca-swap": Stop, SetTLSCaCertFile, Start; "ca-swap-restart": SetTLSCaCertFile,
 	// Restart; "cfg-replaced": the same through SetTLSConfig). From then on only
 	// certificates of the new CA are acceptable.
-	Reconf string `json:"reconfigured,omitempty"`
+	Reconf  string `json:"reconfigured,omitempty"`
 	Choices []int  `json:"choices,omitempty"`
 }
 
